@@ -12,7 +12,60 @@ pub fn red127(a: u128) -> u128 {
     }
 }
 
+/// reduce hi*z^128 + lo modulo z^127 + z^63 + 1 (z^128 = z^64 + z)
+pub fn reduce256(mut hi: u128, mut lo: u128) -> u128 {
+    while hi != 0 {
+        let h = hi;
+        hi = 0;
+        lo ^= h << 64;
+        hi ^= h >> 64;
+        lo ^= h << 1;
+        hi ^= h >> 127;
+    }
+    red127(lo)
+}
+
+/// carry-less product accumulated over 256 bits, then reduced (same result as `mul127_slow`)
 pub fn mul127(a: u128, b: u128) -> u128 {
+    let (mut hi, mut lo) = (0u128, 0u128);
+    let mut b = b;
+    let mut i = 0u32;
+    while b != 0 {
+        let tz = b.trailing_zeros();
+        i += tz;
+        b >>= tz;
+        // add a << i
+        lo ^= a << i;
+        if i != 0 {
+            hi ^= a >> (128 - i);
+        }
+        b >>= 1;
+        i += 1;
+        if i == 128 {
+            break;
+        }
+    }
+    reduce256(hi, lo)
+}
+
+fn spread64(x: u64) -> u128 {
+    let mut v = x as u128;
+    v = (v | (v << 32)) & 0x00000000FFFFFFFF00000000FFFFFFFF;
+    v = (v | (v << 16)) & 0x0000FFFF0000FFFF0000FFFF0000FFFF;
+    v = (v | (v << 8)) & 0x00FF00FF00FF00FF00FF00FF00FF00FF;
+    v = (v | (v << 4)) & 0x0F0F0F0F0F0F0F0F0F0F0F0F0F0F0F0F;
+    v = (v | (v << 2)) & 0x33333333333333333333333333333333;
+    v = (v | (v << 1)) & 0x55555555555555555555555555555555;
+    v
+}
+
+/// squaring by bit spreading (same result as mul127_slow(a, a))
+pub fn sq127(a: u128) -> u128 {
+    reduce256(spread64((a >> 64) as u64), spread64(a as u64))
+}
+
+/// definitional shift-and-xor product
+pub fn mul127_slow(a: u128, b: u128) -> u128 {
     let mut a = red127(a);
     let mut b = red127(b);
     let mut r = 0u128;
@@ -27,9 +80,6 @@ pub fn mul127(a: u128, b: u128) -> u128 {
     r
 }
 
-pub fn sq127(a: u128) -> u128 {
-    mul127(a, a)
-}
 
 pub fn pow127(a: u128, mut e: u128) -> u128 {
     let mut r = 1u128;
@@ -97,7 +147,12 @@ impl F254 {
         let t = mul127(self.1, o.1);
         F254(mul127(self.0, o.0) ^ t, mul127(self.0, o.1) ^ mul127(self.1, o.0) ^ t)
     }
+    /// (a0 + a1 u)^2 = (a0^2 + a1^2) + a1^2 u
     pub fn sq(self) -> F254 {
+        let (s0, s1) = (sq127(self.0), sq127(self.1));
+        F254(s0 ^ s1, s1)
+    }
+    pub fn sq_slow(self) -> F254 {
         self.mul(self)
     }
     pub fn is_zero(self) -> bool {
@@ -110,8 +165,18 @@ impl F254 {
         }
         x
     }
-    /// inverse by a^(2^254 - 2) (0 -> 0)
+    /// inverse through the norm to GF(2^127): a^-1 = conj(a) / (a * conj(a)), conj(a0 + a1 u) = (a0 + a1) + a1 u
+    /// (same result as `inv_slow`; 0 -> 0)
     pub fn inv(self) -> F254 {
+        let a = self.norm();
+        let c = F254(a.0 ^ a.1, a.1);
+        let n = a.mul(c);
+        debug_assert!(n.1 == 0);
+        let ni = inv127(n.0);
+        F254(mul127(c.0, ni), mul127(c.1, ni))
+    }
+    /// inverse by a^(2^254 - 2) (0 -> 0)
+    pub fn inv_slow(self) -> F254 {
         // a^(2^254-2) = prod_{i=1}^{253} a^(2^i)
         let mut r = F254::ONE;
         let mut x = self.norm();
